@@ -104,6 +104,39 @@ def Op2.resTy : Op2 → Ty → Ty → Option Ty
   | .eq, .uint w, .uint w' | .ne, .uint w, .uint w' | .lt, .uint w, .uint w' => if w = w' then some .bit else none
   | _, _, _ => none
 
+/-- `gtry::Selection` (frontend/BitVectorSlice.h:45-63) -/
+structure Selection where
+  start : Int
+  width : Int
+  untilEnd : Bool
+  deriving DecidableEq, Repr
+
+/-- the factory functions of `Selection` (frontend/BitVector.cpp:35-91), as written in the program text -/
+inductive SelForm where
+  | all                               -- Selection::All()
+  | from (start : Int)                -- Selection::From(start)
+  | range (start stop : Int)          -- Selection::Range(start, end)            end exclusive
+  | rangeIncl (start stop : Int)      -- Selection::RangeIncl(start, endIncl)
+  | slice (off size : Nat)            -- Selection::Slice(offset, size)
+  | symbol (idx : Int) (sw : Nat)     -- Selection::Symbol(idx, symbolWidth)
+  deriving DecidableEq, Repr
+
+def SelForm.toSelection : SelForm → Selection
+  | .all => ⟨0, 0, true⟩
+  | .from s => ⟨s, 0, true⟩
+  | .range s e => ⟨s, e - s, false⟩
+  | .rangeIncl s e => ⟨s, e - s + 1, false⟩
+  | .slice o n => ⟨o, n, false⟩
+  | .symbol i w => ⟨i * w, w, false⟩
+
+/-- `BitVectorSliceStatic::BitVectorSliceStatic(const Selection&, BitWidth parentW, …)` (frontend/BitVectorSlice.cpp:52-69):
+    a negative start and a negative width count from the top of the parent. `none`: the `size_t` result would wrap around
+    (negative offset or width) - outside the model. -/
+def Selection.resolve (s : Selection) (W : Nat) : Option (Nat × Nat) :=
+  let off : Int := if s.start ≥ 0 then s.start else s.start + W
+  let w : Int := if s.untilEnd then W - off else if s.width ≥ 0 then s.width else s.width + W
+  if 0 ≤ off ∧ 0 ≤ w then some (off.toNat, w.toNat) else none
+
 /-- one selection step applied to a `UInt` -/
 inductive Sel where
   | slice (off w : Nat)          -- `x(off, w_b)`            → UInt w      (BitVectorSliceStatic)
@@ -111,6 +144,7 @@ inductive Sel where
   | dynBit (idx : Nat)           -- `x[idx]`, idx a UInt var → Bit         (BitVectorSliceDynamic, mul 1, width 1)
   | dynPart (idx parts : Nat)    -- `x.part(parts, idx)`     → UInt (W/parts)
   | dynSlice (idx w : Nat)       -- `x(idx, w_b)`            → UInt w      (offset = idx, 2^idxWidth options)
+  | sel (f : SelForm)            -- `x(Selection::…)`        → UInt w      (BitVectorSliceStatic from a `Selection`)
   deriving DecidableEq, Repr
 
 inductive Expr where
@@ -172,6 +206,7 @@ def selPos (env : List Val) (cur : Val) : Sel → Option (Nat × Nat)
   | .dynSlice idx w => do
       let iv ← env[idx]?
       some (natOfBits iv, w)
+  | .sel f => f.toSelection.resolve cur.length
 
 def readPath (env : List Val) : Val → List Sel → Option Val
   | cur, [] => some cur
@@ -354,6 +389,10 @@ def selGeom (sigs : List Sig) (W : Nat) : Sel → Option SelG
       let (ip, iw) ← idxOf sigs idx
       -- BitVector.h:344-350: maxOffset = offset.width().last(), offsetMul = 1
       if 2 ^ iw - 1 + w ≤ W ∧ 1 ≤ w then some (.dyn ip 1 w (2 ^ iw) (.uint w)) else none
+  | .sel f => do
+      let (off, w) ← f.toSelection.resolve W
+      -- readPort: HCL_DESIGNCHECK(m_offset + m_width <= width); assignLocal: HCL_ASSERT(rangeOffset < totalWidth)
+      if off + w ≤ W ∧ off < W then some (.stat off w (.uint w)) else none
 
 /-- `replaceSelection(rangeOffset, rangeWidth, totalWidth)` (BitVectorSlice.cpp:27-39) -/
 def replaceSelection (off w total : Nat) : List (Nat × Nat × Nat) :=
